@@ -129,6 +129,12 @@ def find(pattern, root: ast.AST) -> List[Tuple[ast.AST, Dict[str, ast.AST]]]:
     p = P(pattern) if isinstance(pattern, str) else pattern
     out = []
     for n in ast.walk(root):
+        if isinstance(p, ast.Assign) and isinstance(n, ast.AnnAssign) and n.value is not None:
+            # an annotated assignment `x: T = v` matches the pattern `x = v`
+            b: Dict[str, ast.AST] = Bindings()
+            if _match(p, ast.Assign([n.target], n.value), b):
+                out.append((n, b))
+            continue
         if type(n) is type(p) or _mv(p) is not None:
             b: Dict[str, ast.AST] = Bindings()
             if _match(p, n, b):
